@@ -246,3 +246,22 @@ Theorem C17_constructor_mode : forall present given_none : bool,
   ctor_mode_custom present given_none = true <-> (present = true /\ given_none = false).
 Proof. exact ctor_mode_spec. Qed.
 Print Assumptions C17_constructor_mode.
+
+(* where the cotangents come from (generated from operators.laplacian): uniform weights never read the cached table;
+   cotangent weights read the persistent attribute when it exists, else compute it now *)
+Theorem C17_laplacian_weight_source :
+  (forall has_attr, lap_cot_source false has_attr = None) /\
+  lap_cot_source true false = Some false /\
+  lap_cot_source true true = Some true.
+Proof. exact laplacian_weight_source. Qed.
+Print Assumptions C17_laplacian_weight_source.
+
+(* REFUTED - known finding seq/stale-cotan-cache-after-vertex-move: the cached table is used as it is, and a solution
+   for the cached cotangents is not a solution for different (current) ones *)
+Theorem C17_cotan_cache_stale_refuted :
+  exists (fs : list face) (free bnd : list Z) (Ub Vb : list Q) (cached current : list Q) (D : Z) (N : list Z),
+    lap_cot_source true true = Some true /\
+    check_cert_with rhs_U (lap_triplets fs true cached) free bnd (comp_list U_border_data [] [] Ub Vb) D N = true /\
+    check_cert_with rhs_U (lap_triplets fs true current) free bnd (comp_list U_border_data [] [] Ub Vb) D N = false.
+Proof. exact cotan_cache_stale_refuted. Qed.
+Print Assumptions C17_cotan_cache_stale_refuted.
